@@ -130,6 +130,8 @@ enum Tok {
 	W(u64, u32, u64),
 	E(u64),
 	M(u32),
+	/// unlink of a table-ish file (old index / ref-count table dropped at the end of a growth)
+	X(u32),
 	T(u32),
 	U(u32),
 }
@@ -142,6 +144,7 @@ impl Tok {
 			Tok::W(r, t, p) => format!("W:{}:{}:{}", r, t, p),
 			Tok::E(r) => format!("E:{}", r),
 			Tok::M(t) => format!("M:{}", t),
+			Tok::X(t) => format!("X:{}", t),
 			Tok::T(f) => format!("T:{}", f),
 			Tok::U(f) => format!("U:{}", f),
 		}
@@ -152,8 +155,8 @@ impl Tok {
 /// acceptor). Returns (canonical verdict `D<k>@<index of the first offending event>`, explanation).
 ///  D1 every W/E of r is preceded by an S of r's log file issued after A of r;
 ///  D2 every T/U of a log file is preceded, for every record appended to it since its previous
-///     T/U, by the record's E and, for every table file written for that record, by an M of that
-///     table file issued after the record's last W;
+///     T/U, by the record's E and, for every table file written for that record, by an M (or the
+///     unlink X) of that table file issued after the record's last W;
 ///  D3 (as far as journals can show it) an A moves to another log file only after an S of the
 ///     previous record's file issued after that record's A, and only into a file holding no live
 ///     record; log files are reclaimed oldest first.
@@ -217,7 +220,8 @@ fn positional_check(j: &[Tok]) -> Option<(String, String)> {
 						}
 					}
 					for (tf, k) in last_w {
-						if !j[k..i].iter().any(|x| *x == Tok::M(tf)) {
+						// (a file unlinked since needs no sync: its pages are gone, durably, with it)
+						if !j[k..i].iter().any(|x| *x == Tok::M(tf) || *x == Tok::X(tf)) {
 							return Some((format!("D2@{}", i), format!("log{} reclaimed before table file {} (record {}) was synced", f, tf, r)))
 						}
 					}
@@ -400,6 +404,7 @@ struct Life {
 	dirty_files: usize,             // enacted, not yet cleaned log files
 	n_synced: usize,                // records whose log file was synced
 	n_processed: usize,             // records appended
+	tx_upto: Vec<usize>,            // [r] = number of transaction records among records 1..=r (reindex records are not)
 	log_synced_len: BTreeMap<String, u64>,
 	ambiguous: u64,
 }
@@ -537,7 +542,12 @@ impl Life {
 						had_sync = true;
 					},
 					Call::Truncate { .. } => ctr.inc("exempt.set_len_tablefile"),
-					Call::Unlink => ctr.inc("exempt.unlink_tablefile"),
+					Call::Unlink => {
+						ctr.inc("tablefile.unlink");
+						if let Some(id) = self.tr.ids.get(&name).cloned() {
+							sys.push(Tok::X(id));
+						}
+					},
 					Call::Mmap { .. } => {},
 				}
 			}
@@ -615,6 +625,7 @@ impl Life {
 			dirty_files: 0,
 			n_synced: 0,
 			n_processed: 0,
+			tx_upto: vec![0],
 			log_synced_len: Default::default(),
 			ambiguous: 0,
 		};
@@ -642,6 +653,8 @@ impl Life {
 			ctr.inc("ev.A");
 			self.unflushed.push(r);
 			self.n_processed += 1;
+			let n = *self.tx_upto.last().unwrap();
+			self.tx_upto.push(n + 1);
 		}
 		self.after_call("process", &[], t, ctr);
 	}
@@ -684,8 +697,35 @@ impl Life {
 		self.after_call("clean", &[], t, ctr);
 	}
 
+	fn log_bytes(&self) -> u64 {
+		let mut n = 0;
+		if let Ok(rd) = std::fs::read_dir(&self.dir) {
+			for e in rd.flatten() {
+				if log_no(&e.file_name().to_string_lossy()).is_some() {
+					n += e.metadata().map(|m| m.len()).unwrap_or(0);
+				}
+			}
+		}
+		n
+	}
+
+	/// `process_reindex` appends one record (a batch of moved index entries and / or the drop of the
+	/// old table) when a growth is in progress and its triggering record is enacted.
 	fn reindex(&mut self, t: &mut Trace, ctr: &mut Counters) {
+		let before = self.log_bytes();
 		self.db().process_reindex().expect("reindex");
+		if self.log_bytes() > before {
+			let r = self.next_rec;
+			self.next_rec += 1;
+			self.pending.push((r, self.j.len()));
+			self.j.push(Tok::A(r, None));
+			ctr.inc("ev.A");
+			ctr.inc("reindex.records");
+			self.unflushed.push(r);
+			self.n_processed += 1;
+			let n = *self.tx_upto.last().unwrap();
+			self.tx_upto.push(n);
+		}
 		self.after_call("reindex", &[], t, ctr);
 	}
 
@@ -701,6 +741,25 @@ impl Life {
 		self.clean(t, ctr);
 		self.db = None;
 		self.after_call("drop", &[], t, ctr);
+		interpose::enable(false);
+	}
+
+	/// Shutdown with a stored background error (what a failed worker leaves behind): `kill_logs`
+	/// takes its error branch, which reclaims the enacted log files without enacting anything more.
+	/// The journal of the drop must still respect D2.
+	fn close_with_error(&mut self, t: &mut Trace, ctr: &mut Counters) {
+		self.db().verif_store_err(Err(parity_db::Error::Io(std::io::Error::new(std::io::ErrorKind::Other, "injected by the c12 harness"))));
+		self.db = None;
+		self.after_call("errdrop", &[], t, ctr);
+		// records appended but never flushed: their log file was never learned (it is named by the
+		// fdatasync of flush_logs); they are a suffix of the records and nothing refers to them
+		let mut idx: Vec<usize> = self.pending.drain(..).map(|(_, i)| i).collect();
+		idx.sort();
+		for i in idx.into_iter().rev() {
+			if matches!(self.j[i], Tok::A(_, None)) {
+				self.j.remove(i);
+			}
+		}
 		interpose::enable(false);
 	}
 
@@ -787,8 +846,8 @@ fn check_image(
 	interpose::enable(false);
 	let opts = life.cfg.options(img);
 	let r = std::panic::catch_unwind(std::panic::AssertUnwindSafe(|| Db::open(&opts)));
-	let lo = life.n_synced;
-	let hi = std::cmp::min(life.n_processed, prefix_states.len() - 1);
+	let lo = life.tx_upto[life.n_synced];
+	let hi = std::cmp::min(life.tx_upto[life.n_processed], prefix_states.len() - 1);
 	let ctx = format!("seed={} mode={} synced={} appended={}", seed, mode, lo, hi);
 	let mut ok = true;
 	match r {
@@ -862,17 +921,53 @@ fn run_case(seed: u64, thorough: bool, root: &Path, t: &mut Trace, ctr: &mut Cou
 	let mut rng = Rng::new(seed);
 	let cfg = gen_cfg(&mut rng);
 	let stats = rng.chance(1, 2);
+	// growth mode (one case in four): column 0 is a uniform plain hash column with zero salt whose
+	// keys all fall into ONE index chunk, filled in order, so that an index growth (new index file,
+	// old table queued for reindex) happens at an arbitrary position of the step interleaving
+	let growth = rng.chance(1, 4);
+	let cfg = if growth {
+		let mut cols = vec![ColCfg { kind: Kind::Plain, uniform: true, btree: false, compression: CompressionType::NoCompression }];
+		if rng.chance(1, 3) {
+			// (zero salt + uniform is the crate's test-only identity hash, defined for 32-byte keys only)
+			let mut c = cfg.cols[0].clone();
+			c.uniform = false;
+			cols.push(c);
+		}
+		Cfg { cols, salt: [0u8; 32], threshold: None, sync: true }
+	} else {
+		cfg
+	};
 	let mut vals = Values::default();
-	t.begin_case(&format!("seed={} cfg={} stats={}", seed, cfg.describe(), stats));
+	t.begin_case(&format!("seed={} cfg={} stats={} growth={}", seed, cfg.describe(), stats, growth));
 	let dir = fresh_dir(root, &format!("c12-{}", seed));
 	let img = root.join(format!("c12-{}-img", seed));
 	let mut life = Life::open(cfg.clone(), dir.clone(), stats, t, ctr);
 	let mut oracle = Oracle::new(cfg.cols.len());
 	let mut prefix_states = vec![oracle.clone()];
 	let nkeys = rng.range(3, 12);
-	let keys: Vec<Vec<Vec<u8>>> =
+	let mut keys: Vec<Vec<Vec<u8>>> =
 		cfg.cols.iter().enumerate().map(|(c, cc)| (0..nkeys).map(|i| gen_key(cc.uniform, c as u8, i)).collect()).collect();
-	let nact = rng.range(10, if thorough { 90 } else { 55 }) as usize;
+	let mut next_fill = 0usize;
+	if growth {
+		let chunk = [(rng.next() & 0xff) as u8, (rng.next() & 0xff) as u8];
+		let n = rng.range(66, 96);
+		keys[0] = (0..n)
+			.map(|i| {
+				let mut k = vec![0u8; 32];
+				k[0] = chunk[0];
+				k[1] = chunk[1];
+				k[2] = (i + 1) as u8;
+				let mut r = Rng::new(seed ^ (i * 7919 + 5));
+				for b in k[3..].iter_mut() {
+					*b = (r.next() & 0xff) as u8;
+				}
+				k[31] = i as u8;
+				k
+			})
+			.collect();
+		ctr.inc("cases.growth_mode");
+	}
+	let nact = if growth { rng.range(45, if thorough { 130 } else { 90 }) } else { rng.range(10, if thorough { 90 } else { 55 }) } as usize;
 	let max_images = if thorough { 24 } else { 12 };
 	let mut images = 0;
 	let mut ok = true;
@@ -883,9 +978,18 @@ fn run_case(seed: u64, thorough: bool, root: &Path, t: &mut Trace, ctr: &mut Cou
 		if a < 32 {
 			let nops = rng.range(1, 5);
 			let mut tx: Tx = vec![];
-			for _ in 0..nops {
+			if growth && next_fill < keys[0].len() && rng.chance(3, 4) {
+				// fill the chunk in order
+				let n = std::cmp::min(rng.range(5, 16) as usize, keys[0].len() - next_fill);
+				for i in 0..n {
+					let kid = (next_fill + i) as u64;
+					tx.push((0u8, Op::Set(keys[0][kid as usize].clone(), vals.canon(format!("v{}_{}", 20 + (kid % 7), 7000 + kid)))));
+				}
+				next_fill += n;
+			}
+			for _ in 0..(if tx.is_empty() { nops } else { 0 }) {
 				let c = rng.below(cfg.cols.len() as u64) as u8;
-				let kid = rng.below(nkeys);
+				let kid = rng.below(keys[c as usize].len() as u64);
 				let k = keys[c as usize][kid as usize].clone();
 				let kind = cfg.cols[c as usize].kind;
 				let r = rng.below(100);
@@ -954,7 +1058,24 @@ fn run_case(seed: u64, thorough: bool, root: &Path, t: &mut Trace, ctr: &mut Cou
 		}
 	}
 	let _ = committed;
-	life.close(t, ctr);
+	if growth {
+		ctr.inc(if life.tr.ids.keys().any(|n| n == "index_00_17") { "cases.growth_happened" } else { "cases.growth_not_reached" });
+	}
+	if rng.chance(1, 6) {
+		ctr.inc("cases.error_shutdown");
+		ctr.inc(&format!("errdrop.dirty_files{}_flushedfiles{}", std::cmp::min(life.dirty_files, 3), std::cmp::min(life.flushed_files.len(), 2)));
+		life.close_with_error(t, ctr);
+		for mode in [0u64, 2] {
+			let (v, d) = life.power_loss_image(&img, &mut rng, mode, ctr);
+			ctr.inc("image.built");
+			ctr.inc("image.after_error_shutdown");
+			ctr.add("image.pages_taken_volatile", v);
+			ctr.add("image.pages_taken_durable", d);
+			ok &= check_image(&mut life, &img, &prefix_states, &keys, seed, mode, t, ctr, prop);
+		}
+	} else {
+		life.close(t, ctr);
+	}
 	// (a) the journal of this life time
 	let j = life.j.clone();
 	if let Some((v, why)) = positional_check(&j) {
